@@ -19,6 +19,7 @@ v1_ctx = dict(
         (r'return scope_\.join\(\);', 'v2_scope_join(&scope_); return;'),
         (r'scope_\.join\(\)', 'v2_scope_join(&scope_)'),
         (r'scope_\.end_scope\(\)', 'v2_scope_end_scope(&scope_)'),
+        (r'scope_\.join_started\(\)', 'AS_scope_ended(scope_.opState_)'),   # v2 join_started(): a plain read of the state word (variant forms only)
         (r'(?<![\w>.])stopSource_\.request_stop\(\)', 'EV_stop_source_request_stop(this)'),
         (r'(?<![\w>.])stopSource_\.get_token\(\)', 'EV_scope_token(this)'),
         (r'\binplace_stop_token\{\}', 'TOKEN_NONE'),
